@@ -87,3 +87,15 @@ Proof.
   rewrite (fold_ext _ (gen_fillnodata_downstream_step ds [] data nodata how)) by (intros; reflexivity).
   rewrite Hs. symmetry. apply map_fst_combine_zb. exact Hl.
 Qed.
+
+(* ---------- distance along the network to the outlet / next masked cell ---------- *)
+Theorem gen_stream_distance_eq ds sq mask real steplen :
+  gen_stream_distance ds sq mask real steplen = stream_distance ds sq mask (if real then steplen else fun _ _ => 1).
+Proof.
+  unfold gen_stream_distance, stream_distance, sweep_down. cbv zeta.
+  apply fold_ext. intros a i. unfold gen_stream_distance_step, dstep, sdist_f. cbv zeta.
+  change (nth i ds (length ds)) with (dsf ds i). rewrite (Nat.eqb_sym i).
+  destruct ((dsf ds i =? i)%nat || match mask with None => false | Some m_ => nth i m_ false end).
+  - symmetry. apply upd_same.
+  - destruct real; reflexivity.
+Qed.
